@@ -435,3 +435,29 @@ func init() {
 		c.Check(n == 1, fk+" :: answer append found", w.pos(f.Pos()), "1", fmt.Sprintf("%d", n))
 	})
 }
+
+// ------------------------------------------------------------------ C06.R13 (round-4 seed, C20)
+// LastResultsHash commits to the deterministic part of every DeliverTx result: code, data, gas wanted, gas
+// used. The projection that feeds the hash copies each of these fields from the field of the same name —
+// a slip (GasUsed taken from GasWanted) removes a field from the commitment on every node alike, so all
+// tests agree while a lying RPC server can falsify that field in /block_results undetected.
+func init() {
+	register("C06", "R13", "K5", "the deterministic projection of a DeliverTx result copies code, data, gas wanted and gas used, each from the field of the same name", 4, func(c *Ctx) {
+		w := c.W
+		f := c.fn("types", "deterministicResponseDeliverTx")
+		if f == nil {
+			return
+		}
+		fk := funcKey(f)
+		p := paramName(f, 0)
+		for _, field := range []string{"Code", "Data", "GasWanted", "GasUsed"} {
+			n := 0
+			for _, fs := range w.fieldStoresIn(f, "abci/types", "ResponseDeliverTx", field) {
+				n++
+				got := w.expr(fs.Store.Val)
+				c.Check(got == p+"."+field, fk+" :: "+field, w.ipos(fs.Store), p+"."+field, field+" of the committed projection is "+got+": the results hash no longer covers "+field)
+			}
+			c.Check(n == 1, fk+" :: copies "+field, w.pos(f.Pos()), "1 store", fmt.Sprintf("%d", n))
+		}
+	})
+}
